@@ -116,6 +116,26 @@ func c17Field(s []byte, q []byte) (string, string) {
 		if !bytes.Equal(mr[0].Key, want) {
 			return "name-field-mismatch", fmt.Sprintf("line %q: key %x want %x", line, mr[0].Key, want)
 		}
+		// the same name written into a field by the repository's own text writer
+		// (which quotes it label by label) and read back
+		rec, err := new(dnsdata.Codec).DecodeLn(append([]byte(nil), line...))
+		if err != nil {
+			return "name-line-rejected", fmt.Sprintf("line %q: DecodeLn: %v", line, err)
+		}
+		text, err := rec.MarshalText()
+		if err != nil {
+			return "name-text-error", fmt.Sprintf("line %q: MarshalText: %v", line, err)
+		}
+		if i := bytes.IndexByte(text, ','); i < 0 || bytes.ContainsAny(text[:i], ":\n") {
+			return "separator-in-written-name", fmt.Sprintf("line %q written as %q", line, text)
+		}
+		mr2, err := new(dnsdata.Codec).ConvertLn(append([]byte(nil), text...))
+		if err != nil || len(mr2) != 1 {
+			return "written-name-rejected", fmt.Sprintf("line %q written as %q: %v (%d records)", line, text, err, len(mr2))
+		}
+		if !bytes.Equal(mr2[0].Key, want) {
+			return "written-name-mismatch", fmt.Sprintf("line %q written as %q: key %x want %x", line, text, mr2[0].Key, want)
+		}
 	}
 	return "", ""
 }
@@ -204,6 +224,25 @@ func TestC17(t *testing.T) {
 		}
 		kit.Class(fmt.Sprintf("rapid-len-%s", sizeClass(len(s))))
 		kit.Sample(c17Case{Hex: hex.EncodeToString(s), Quoted: string(quote.Bquote(s)), Stage: "rapid"})
+	}))
+	// (3) labels: 1..63 seven-bit bytes, most of which need escaping, placed in
+	// an owner-name field (directly and through the text writer)
+	labAlpha := []byte{0, 1, 2, 7, 8, 9, 10, 13, 27, 31, 127, ',', ':', '\\', '"', ' ', 'a', 'Z', '-', '_', '*', '0'}
+	kit.SetRapid(kit.N(20000, 400000))
+	rapid.Check(t, kit.Prop("C17", func(t *rapid.T) {
+		n := rapid.SampledFrom([]int{1, 2, 3, 10, 15, 16, 17, 21, 40, 62, 63}).Draw(t, "lablen")
+		s := make([]byte, n)
+		for i := range s {
+			s[i] = rapid.SampledFrom(labAlpha).Draw(t, "labbyte")
+		}
+		if s[0] == '*' {
+			s[0] = 'x'
+		}
+		kit.Case(c17Case{Hex: hex.EncodeToString(s)})
+		c17One(t, s, true)
+		kit.NonTrivial("label|" + string(s))
+		kit.Class(fmt.Sprintf("label-len-%s/quoted-%s", sizeClass(len(s)), sizeClass(len(quote.Bquote(s)))))
+		kit.Sample(c17Case{Hex: hex.EncodeToString(s), Quoted: string(quote.Bquote(s)), Stage: "label"})
 	}))
 }
 
